@@ -102,12 +102,18 @@ impl ComplexTime {
     /// Truncate the submicrosecond part of the walltime.
     pub fn truncate_submicrosecond_walltime(&self) -> ComplexTime {
         let nanos_in_one_micro = Duration::from_micros(1).as_nanos();
-        let submicrosecond_nanos = match self.wall_duration_since(SystemTime::UNIX_EPOCH) {
-            Ok(duration) => duration.as_nanos() % nanos_in_one_micro,
-            Err(e) => nanos_in_one_micro - e.duration().as_nanos() % nanos_in_one_micro,
+        // Truncate toward the epoch, like the conversion to microseconds used by storage does.
+        let wall = match self.wall_duration_since(SystemTime::UNIX_EPOCH) {
+            Ok(duration) => {
+                self.wall - Duration::from_nanos((duration.as_nanos() % nanos_in_one_micro) as u64)
+            }
+            Err(e) => {
+                self.wall
+                    + Duration::from_nanos((e.duration().as_nanos() % nanos_in_one_micro) as u64)
+            }
         };
         ComplexTime {
-            wall: self.wall - Duration::from_nanos(submicrosecond_nanos as u64),
+            wall,
             mono: self.mono,
         }
     }
